@@ -12,6 +12,7 @@ PLAN.json (all optional):
   count_write_events : bool   only count those events (written to after.json)
   break_mutator: {cls, method, mod, salt}  make a mutator raise on some nodes
   break_apply  : {mod, salt}  make apply_simp raise for some candidates (inside the workers)
+  parse_only   : true  stop when the input has been read; after.json gets 'parsed' (nested lists)
   fixpoint     : {spec, opts}  after main(): enumerate every proposal on the
                         result of strategy_hierarchical.reduce and evaluate it
   stop_after_accepts : n  raise KeyboardInterrupt after n accepted steps
@@ -264,6 +265,10 @@ def main():
     orig_detect = mutators.auto_detect_theories
 
     def detect(exprs):
+        if plan.get('parse_only'):
+            # what a real run has read from the input file (C08): record it and stop
+            state['parsed'] = model.to_plain(list(exprs))
+            raise KeyboardInterrupt()
         res = orig_detect(exprs)
         state['enabled_at_start'] = {k: v for k, v in vars(options.args()).items()
                                      if k.startswith('mutator_') or k.startswith('mutators_')}
@@ -341,6 +346,8 @@ def main():
                  stopped=state.get('stopped', False), repeat=state.get('repeat'),
                  too_many_accepts=state.get('too_many_accepts', False))
 
+    if 'parsed' in state:
+        after['parsed'] = state['parsed']
     if state.get('repeat'):
         first_ = state['writes_log'].index(state['repeat'])
         after['cycle_texts'] = state['writes_text'][first_:]
